@@ -20,6 +20,8 @@ CRATES = {
     'symcc': {'pkg': 'cedar-policy-symcc', 'dir': 'cedar-policy-symcc', 'features': ''},
     # the public API crate: FFI / protobuf / permission-query wrappers (its dump contains only its own bodies; calls into cedar-policy-core are stubs)
     'api': {'pkg': 'cedar-policy', 'dir': 'cedar-policy', 'features': 'partial-eval,tpe,protobufs', 'extra_src': ['cedar-policy-core/src']},
+    # the command-line front end (library part): exit status and printed decision of `cedar authorize` / `validate` (its own bodies only)
+    'cli': {'pkg': 'cedar-policy-cli', 'dir': 'cedar-policy-cli', 'features': '', 'extra_src': ['cedar-policy/src', 'cedar-policy-core/src']},
 }
 
 
